@@ -62,10 +62,15 @@ type c11Fake struct {
 
 	cols []string
 	rows [][]driver.Value
+
+	iterFailAfter int // >= 0: row iteration fails after that many rows
+	iterErr       *c11Fault
 }
 
 func newC11Fake() *c11Fake {
 	return &c11Fake{
+		iterFailAfter: -1,
+		iterErr:       &c11Fault{"row iteration"},
 		connectErr:  &c11Fault{"connect"},
 		beginErr:    &c11Fault{"begin"},
 		commitErr:   &c11Fault{"commit"},
@@ -181,7 +186,7 @@ func (c *c11Conn) doQuery() (driver.Rows, error) {
 	if e := f.takeArmed(); e != nil {
 		return nil, e
 	}
-	return &c11Rows{cols: f.cols, rows: f.rows}, nil
+	return &c11Rows{cols: f.cols, rows: f.rows, failAfter: f.iterFailAfter, failErr: f.iterErr}, nil
 }
 
 type c11Stmt struct {
@@ -213,14 +218,19 @@ func (t *c11Tx) Rollback() error {
 }
 
 type c11Rows struct {
-	cols []string
-	rows [][]driver.Value
-	i    int
+	cols      []string
+	rows      [][]driver.Value
+	i         int
+	failAfter int // >= 0: Next fails with failErr once failAfter rows have been served
+	failErr   error
 }
 
 func (r *c11Rows) Columns() []string { return r.cols }
 func (r *c11Rows) Close() error      { return nil }
 func (r *c11Rows) Next(dest []driver.Value) error {
+	if r.failAfter >= 0 && r.i >= r.failAfter {
+		return r.failErr
+	}
 	if r.i >= len(r.rows) {
 		return io.EOF
 	}
@@ -356,6 +366,10 @@ func VerifC11AbortSession(s Session) {
 }
 
 const c11KnownPanicSwallowed = "panic-swallowed-no-rollback"
+
+// c11KnownIterTruncated: QueryRows* returns nil and the rows read so far when
+// the driver's row iteration fails part-way (unmarshalRows never looks at rows.Err()).
+const c11KnownIterTruncated = "rows-iteration-error-truncated-nil"
 
 // VerifC11InterpTx runs one transaction case and judges it.
 //
@@ -922,6 +936,7 @@ type C11RowsCase struct {
 	Cd      bool       `json:"cd,omitempty"`   // the context handed to the ...Ctx form is already cancelled
 	Log     string     `json:"lg,omitempty"`   // package logging switches: "" both on | off (sqlx.DisableLog) | stmtoff (sqlx.DisableStmtLog)
 	QF      bool       `json:"qf,omitempty"`   // the driver fails the query
+	It      int        `json:"it,omitempty"`   // k+1: the query succeeds but the driver's row iteration fails after k rows (k < n, or 0 when n = 0); 0 = no such fault
 	W       bool       `json:"w,omitempty"`    // warm-up: the same call into the same destination type with the columns in reverse order runs first (result ignored)
 	Single  bool       `json:"one,omitempty"`  // QueryRow* (else QueryRows*)
 	Partial bool       `json:"part,omitempty"` // *Partial form (non-strict)
@@ -1166,6 +1181,13 @@ func VerifC11GenRows(sessions []string) func(rt *rapid.T) C11RowsCase {
 		c.W = rapid.IntRange(0, 3).Draw(rt, "warmup") == 0
 		c.Log = rapid.SampledFrom([]string{"", "", "off", "off", "stmtoff"}).Draw(rt, "log")
 		c.QF = rapid.IntRange(0, 19).Draw(rt, "queryfault") == 7
+		if it := rapid.IntRange(0, 15).Draw(rt, "iterfault"); (it == 5 || it == 9) && !c.QF && !c.Cd {
+			k := 0
+			if c.NRows > 1 {
+				k = rapid.IntRange(0, c.NRows-1).Draw(rt, "iterfaultafter")
+			}
+			c.It = k + 1
+		}
 		c.Shape = rapid.SampledFrom([]string{"tagged", "tagged", "tagged", "tagged", "tagged", "tagged",
 			"untagged", "untagged", "emb-untagged", "emb-tagged", "mixed", "prim"}).Draw(rt, "shape")
 
@@ -1448,6 +1470,58 @@ func VerifC11InterpRows(c C11RowsCase, q C11Querier) (v kit.Verdict) {
 	if c.QF && !c.Cd {
 		f.arm(queryFault)
 	}
+	// row-iteration fault: the query succeeds, the driver serves iterK rows and
+	// then fails. nrows is the number of rows a single-row form can have seen.
+	iter := c.It > 0 && !c.QF && !c.Cd
+	iterK := c.It - 1
+	nrows := c.NRows
+	if iter {
+		if iterK > c.NRows {
+			iterK = c.NRows
+		}
+		f.iterFailAfter = iterK
+		classes[fmt.Sprintf("iter-fault-after:%d", iterK)] = true
+		if c.Single && iterK >= 1 {
+			nrows = iterK // the fault lies behind the row a single-row form reads
+			classes["iter-fault-behind-the-single-row"] = true
+		}
+	}
+	// judgeIter judges the forms that must run into the iteration fault: the
+	// single-row forms when it strikes before the first row, the multi-row forms
+	// always. The result is incomplete, so the call must return that error; a
+	// single-row form must not call it ErrNotFound (the result is not empty) and
+	// must leave the destination empty. firstRowFails: the strict column check
+	// rejects the first row, so that error may come first.
+	judgeIter := func(err error, pv any, holds string, nElems int, firstRowFails bool) kit.Verdict {
+		switch {
+		case pv != nil:
+			return v.Failf("row iteration failed after %d row(s): panic %v", iterK, pv)
+		case c.Single:
+			classes["iter-fault-before-first-row/single"] = true
+			switch {
+			case err == nil:
+				return v.Failf("single-row form: the driver failed the row iteration before the first row with %q but the call returned nil", f.iterErr)
+			case errors.Is(err, ErrNotFound):
+				return v.Failf("single-row form: the driver failed the row iteration before the first row with %q but the call reported ErrNotFound; the result is not empty, it could not be read", f.iterErr)
+			case !errors.Is(err, f.iterErr):
+				return v.Failf("single-row form: the driver failed the row iteration with %q but the call returned the unrelated error %q", f.iterErr, err)
+			case holds != "":
+				return v.Failf("single-row form: row iteration failed before the first row but the destination holds data: %s", holds)
+			}
+		default:
+			classes["iter-fault/multi"] = true
+			switch {
+			case err == nil && nElems == iterK:
+				v.Known = c11KnownIterTruncated
+				return v.Failf("multi-row form: the driver failed the row iteration after %d of %d rows with %q but the call returned nil with a truncated result of %d element(s)", iterK, c.NRows, f.iterErr, nElems)
+			case err == nil:
+				return v.Failf("multi-row form: the driver failed the row iteration after %d of %d rows with %q but the call returned nil (%d elements)", iterK, c.NRows, f.iterErr, nElems)
+			case !errors.Is(err, f.iterErr) && !(firstRowFails && iterK >= 1):
+				return v.Failf("multi-row form: the driver failed the row iteration after %d rows with %q but the call returned the unrelated error %q", iterK, f.iterErr, err)
+			}
+		}
+		return v
+	}
 	// judgeQueryFault: a query the driver failed yields no result: the call must
 	// return that error and nothing may be copied.
 	judgeQueryFault := func(err error, pv any, holdsData string) kit.Verdict {
@@ -1516,19 +1590,35 @@ func VerifC11InterpRows(c C11RowsCase, q C11Querier) (v kit.Verdict) {
 			v.Excluded = true
 			return v
 		}
+		if iter && (!c.Single || iterK == 0) {
+			holds := ""
+			if c.Single {
+				if x := c11Norm(c.Prim, dst.Elem()); x != nil {
+					holds = fmt.Sprint(x)
+				}
+			}
+			n := 0
+			if !c.Single {
+				n = dst.Elem().Len()
+			}
+			return judgeIter(err, pv, holds, n, false)
+		}
 		if c.Single {
-			if c.NRows == 0 {
+			if nrows == 0 {
 				classes["empty-single"] = true
 				if !errors.Is(err, ErrNotFound) {
 					return v.Failf("QueryRow into a primitive on an empty result returned %v, want ErrNotFound", err)
 				}
 				return v
 			}
+			if iter && errors.Is(err, f.iterErr) {
+				return v // read ahead and reported the fault behind the row: not excluded by the statement
+			}
 			if err != nil {
 				return v.Failf("QueryRow into %s: unexpected error %v", c.Prim, err)
 			}
 			got := c11Norm(c.Prim, dst.Elem())
-			for r := 0; r < c.NRows; r++ {
+			for r := 0; r < nrows; r++ {
 				if reflect.DeepEqual(got, c11Want(c.Prim, col, r)) {
 					return v
 				}
@@ -1782,7 +1872,17 @@ func VerifC11InterpRows(c C11RowsCase, q C11Querier) (v kit.Verdict) {
 	}
 
 	// ---------------- oracle
-	if c.NRows == 0 {
+	if iter && (!c.Single || iterK == 0) {
+		holds := ""
+		if c.Single {
+			_, holds = allEmpty()
+		}
+		return judgeIter(err, nil, holds, len(got), !c.Partial && short)
+	}
+	if iter && errors.Is(err, f.iterErr) {
+		return v // single-row form that read ahead and reported the fault behind its row
+	}
+	if nrows == 0 {
 		if ok, what := allEmpty(); !ok {
 			return v.Failf("empty result but data in the destination: %s", what)
 		}
@@ -1826,7 +1926,7 @@ func VerifC11InterpRows(c C11RowsCase, q C11Querier) (v kit.Verdict) {
 	}
 	if c.Single {
 		firstDiff := ""
-		for r := 0; r < c.NRows; r++ {
+		for r := 0; r < nrows; r++ {
 			d := matchRow(got[0], r)
 			if d == "" {
 				firstDiff = ""
